@@ -957,6 +957,12 @@ func (e *Engine) convertPayload(src, dst types.Type, p value) value {
 	if types.IdenticalIgnoreTags(us, ud) {
 		return copyVal(dst, p)
 	}
+	if cs, ok := us.(*types.Chan); ok {
+		// a bidirectional channel converted to a directional type: the same channel
+		if cd, ok := ud.(*types.Chan); ok && cs.Dir() == types.SendRecv && types.Identical(cs.Elem(), cd.Elem()) {
+			return p
+		}
+	}
 	panic(unsupported{fmt.Sprintf("reflect Convert %s -> %s", src, dst)})
 }
 
